@@ -9,7 +9,7 @@
    (it does not: the zeroed cache words held the call-site slot ids) and the assembly-text
    round trip are explored by the tie (hx_avbc), not proved here. *)
 From Aelys Require Import Base.Tactics Extracted.ValueConsts Extracted.AvbcLayout
-  Model.Value Model.Avbc Proofs.AvbcProofs.
+  Model.Value Model.Avbc Proofs.AvbcProofs Model.AasmTypes Extracted.AasmTable Model.Aasm Proofs.AasmProofs Extracted.AasmEscapes Model.AasmStr Proofs.AasmStrProofs.
 Local Open Scope N_scope.
 
 (* the layout the source currently has is one the reader can invert at all:
@@ -57,3 +57,47 @@ Example C08_nonvacuous :
   /\ (exists bs, write ex_top = WOk bs /\ read true bs = ROk (normalize ex_top))
   /\ normalize ex_top <> ex_top /\ height ex_top = 2.
 Proof. exact ex_top_ok. Qed.
+
+(* ---- the assembly text format, instruction level ----------------------------------------
+   The per-opcode operand table is regenerated from disasm.rs (what is printed) and opcodes.rs
+   (what is parsed) on every run.  table_ok says: for EVERY opcode the assembler knows the
+   mnemonic, encodes the same opcode, reads the same operands in the same order into the same
+   instruction fields, and appends as many cache words as the disassembler skips; mnemonics and
+   opcodes are pairwise distinct.  A mnemonic the disassembler prints and the assembler lacks
+   (KF-C08-6) or a swapped operand (KF-C08-7) makes this false and names the row. *)
+Theorem C08_aasm_table_consistent : table_ok aasm_table = true.
+Proof. exact table_ok_now. Qed.
+
+(* assemble(disassemble w) = w followed by its zeroed cache words, for every instruction word
+   whose opcode is in the table and whose unshown fields are zero (the text cannot carry them)
+   -- all 172 opcodes, all operand values; for any table that is consistent, hence for the
+   extracted one *)
+Theorem C08_aasm_instr_roundtrip : forall (i : instr) op name sh cache asm,
+  find_op (i_op i) aasm_table = Some (Row op name sh cache asm) ->
+  canonical sh i = true ->
+  reassemble (word_of i) = Some (word_of i :: repeat 0 (N.to_nat cache)).
+Proof. exact reassemble_word. Qed.
+
+Example C08_aasm_nonvacuous :
+  reassemble (word_of (Instr 0 3 7 0)) = Some [word_of (Instr 0 3 7 0)]
+  /\ reassemble (word_of (Instr 77 2 1 3)) = Some [word_of (Instr 77 2 1 3); 0; 0]
+  /\ reassemble (word_of (Instr 1 4 255 254)) = Some [word_of (Instr 1 4 255 254)]
+  /\ reassemble (word_of (Instr 33 1 9 2)) = Some [word_of (Instr 33 1 9 2)]
+  /\ reassemble (word_of (Instr 134 1 2 3)) = Some [word_of (Instr 134 1 2 3)]
+  /\ reassemble (word_of (Instr 125 0 0 0)) = None.
+Proof. exact reassemble_examples. Qed.
+
+(* string literals (.name, .globals, string constants): the assembler's read_string inverts the
+   disassembler's escape_string for EVERY sequence of characters, whatever follows the closing
+   quote; the two escape tables are regenerated from the source and must be mutually inverse *)
+Theorem C08_aasm_escape_tables_consistent : esc_tables_ok = true.
+Proof. exact esc_tables_ok_now. Qed.
+
+Theorem C08_aasm_string_roundtrip : forall (s rest : list N),
+  unescape (escape s ++ QUOTE :: rest) = Some (s, rest).
+Proof. exact unescape_escape. Qed.
+
+Example C08_aasm_string_nonvacuous :
+  escape [97; 10; 34; 92; 0; 1; 127; 133; 233; 128512] = [97; 92; 110; 92; 34; 92; 92; 92; 48; 92; 120; 48; 49; 92; 120; 55; 102; 133; 233; 128512]
+  /\ unescape [97; 92; 120; 99; 50; 34] = Some ([97; 194], []).
+Proof. exact escape_examples. Qed.
